@@ -94,6 +94,27 @@ NEEDS = {
  "C15-r3m2": ("truncation lowers a second, unreported eviction boundary (a fix of the known C07 defect that breaks C15 as stated)", "truncate into a synced chunk, re-appends at or below the stale boundary, binding limit or idle + drain"),
  "C16-r3m1": ("load_log_payload reads from the open chunk when the chunk is not among the closed ones (offset underflow for a dropped chunk)", "purge mid-log with a higher term, chunk closes, flush, second purge dropping the chunk while entries stay indexed, read"),
  "C16-r3m2": ("PayloadCache::insert does not add the size when the key is already cached", "the same log id appended twice via update_state rewinding last, second payload longer, then truncate / purge / evict"),
+ # round 4
+ "C02-r4m1": ("update_state() also drops index entries outside (purged, last] of the state it installs — live only, never journalled", "update_state with a lower last, flush, clean restart, read beyond the installed last"),
+ "C02-r4m2": ("a rotated chunk is not registered as closed when last did not move while it was open", "a non-oldest chunk filled only with vote / commit / user-data records, later rotations, a purge past the following chunk, flush, clean restart"),
+ "C03-r4m1": ("open() accepts a previous chunk that ends (on a record boundary) before the next chunk's offset and continues from the next head snapshot", "crash in the rotation window: next chunk file created, closing chunk's tail only queued"),
+ "C03-r4m2": ("rotation writes the closing chunk's buffered tail directly to the file on the caller thread", "an earlier flush still queued at a busy worker when a later write fills the chunk; records whose swapped order still replays"),
+ "C04-r4m1": ("send_request uses try_send: a full queue is reported as WouldBlock after the pending data was taken", "more than 1024 requests queued against a stalled worker, the refused flush retried"),
+ "C04-r4m2": ("flush() fast path: nothing pending and worker idle => callback Ok at once, no request sent", "an fdatasync that failed once, worker idle, retry flush with nothing new"),
+ "C05-r4m1": ("a new chunk is written as <chunk>.tmp and renamed into place; a left-over .tmp is never cleaned up and blocks the next creation at that offset", "a crash between the creation of the temporary file and its rename (rotation or recovery), then a chunk creation at the same offset"),
+ "C05-r4m2": ("flush() sends RemoveChunks before the Write request", "purge obsoleting a closed chunk with its record still pending, flush, crash / fault between the unlink and the write"),
+ "C07-r4m1": ("RaftLog::read() takes the cache lock with try_read(); a busy lock counts as a miss", "a read of a not-yet-evictable entry at the instant the worker holds (or queues for) the cache write lock"),
+ "C07-r4m2": ("assert! in sync_all_files that the eviction boundary never moves backwards (fires on the worker, poisons the cache lock)", "a boundary published, a truncation below it, the chunk holding the truncation closes before any higher id is appended, a later flush, any read"),
+ "C08-r4m1": ("the worker survives a failed write and the next successful sync releases the postponed chunk removals", "a purge obsoleting a closed chunk, a write fault on the batch carrying the purge record, one more successful flush"),
+ "C08-r4m2": ("send_flush returns early when nothing is buffered and no callback is given; flush() still sends RemoveChunks", "the purge record fills and closes a fully purged chunk, then flush(None), power loss"),
+ "C09-r4m1": ("open() drops fully purged chunks from its map (scheduling their files for removal) and derives the continuity check from that map", "a fully purged chunk still on disk at open, the chunk file right after it missing, at least one more chunk after that"),
+ "C09-r4m2": ("verify_trailing_zeros sizes its buffer by read_buffer_size: with 0 the first read returns 0 and any tail counts as zeros", "restart with read_buffer_size = 0 and a checksum-type damage (flipped byte that keeps the record length)"),
+ "C11-r4m1": ("try_close_full_chunk detaches the buffered tail before creating the next chunk file; a failed creation drops it", "unflushed records in a chunk that fills, the chunk-file creation failing once, a later write that rotates"),
+ "C11-r4m2": ("on_disk_size takes the oldest start from the closed map and falls back to 0 when no closed chunk is left", "rotations, then a purge that retires every closed chunk (the open chunk starts above 0)"),
+ "C13-r4m1": ("the worker's purged-chunk removal deletes every directory entry whose name sorts at or before the newest purged chunk — LOCK included", "a rotation, a purge obsoleting a closed chunk, a finished flush, then a second opener while the owner is alive"),
+ "C13-r4m2": ("a dump_data() snapshot that holds closed chunks keeps a clone of the directory lock", "a multi-chunk store, dump_data(), the snapshot kept alive past the drop of the store, then a reopen"),
+ "C14-r4m1": ("purge() schedules every closed chunk whose last index <= upto (filter) instead of the oldest-first prefix", "truncate spanning a rotation (non-monotonic closing indexes), purge between the two ends, flush, ack, drop, reopen"),
+ "C14-r4m2": ("a failed write_all no longer ends the worker", "one worker write failing, the caller continuing with successful flushes, drop, reopen"),
 }
 
 def main():
